@@ -437,6 +437,12 @@ func genKsScript(seed uint64) *KsScript {
 			}
 			s.Tasks[t] = append(s.Tasks[t], KsOp{Kind: "load", Addr: a, Of: of})
 		case 2:
+			if r.Chance(0.15) {
+				// an address nobody saved a key for; the ones with '[' are malformed glob patterns, for which the
+				// directory listing itself fails once the directory holds a file. Either way: an error, and the
+				// key store stays usable
+				a = []string{"did:panacea:A#key[1", "nobody", "a[", "did:panacea:A#key1[a-"}[r.Intn(4)]
+			}
 			s.Tasks[t] = append(s.Tasks[t], KsOp{Kind: "loadByAddress", Addr: a})
 		}
 	}
